@@ -56,6 +56,7 @@ pub mod utils {
             r matches Ok(i) ==> value_int(value) matches Some(n) && (i as int == n || (n > isize::MAX && i == isize::MAX) || (n < isize::MIN && i == isize::MIN)),
             r matches Err(e) ==> value_int(value) is None && (e.kind is ValueError || e.kind is TypeError),
     { unimplemented!() }
+    //@reflect_helpers file=yarel/src/utils.rs prefix=utils::
 }
 
 // ObjString: the byte string with its char-boundary predicate (std `str` byte reasoning is outside Verus).
@@ -74,6 +75,8 @@ impl ObjString {
     pub fn as_str(&self) -> (r: &ObjString) ensures *r == *self { unimplemented!() }
     #[verifier::external_body]
     pub fn is_empty(&self) -> (r: bool) ensures r == (self.blen() == 0) { unimplemented!() }
+    #[verifier::external_body]
+    pub fn as_bytes(&self) -> (r: &[u8]) ensures r@ == self.bytes() { unimplemented!() }
 
     //@fn file=yarel/src/object.rs path=ObjString::validate_char_boundary ret=r props=C13,C02
     //@  rewrite R1
@@ -106,6 +109,18 @@ pub broadcast axiom fn axiom_cb_ends(s: ObjString)
 pub broadcast axiom fn axiom_cb_beyond(s: ObjString, i: int)
     requires i > s.blen()
     ensures !#[trigger] s.is_cb(i);
+// Valid UTF-8 (String's type invariant): at a character boundary inside the string stands a lead byte, and the next
+// boundary is exactly the encoded width of that lead byte further on. Assumed (a property of the encoding).
+pub open spec fn utf8_width(b: u8) -> int { if b < 0x80 { 1 } else if b < 0xE0 { 2 } else if b < 0xF0 { 3 } else { 4 } }
+pub broadcast axiom fn axiom_utf8_char(s: ObjString, i: int)
+    requires 0 <= i < s.blen(), s.is_cb(i)
+    ensures ({
+        let b = #[trigger] s.bytes()[i];
+        let w = utf8_width(b);
+        &&& !(0x80 <= b < 0xC2) && b <= 0xF4
+        &&& i + w <= s.blen() && s.is_cb(i + w)
+        &&& forall|j: int| i < j < i + w ==> !s.is_cb(j)
+    });
 pub broadcast group axiom_cb { axiom_cb_ends, axiom_cb_beyond }
 
 pub open spec fn norm(x: int, limit: int) -> int { if x < 0 { x + limit } else { x } }
@@ -156,7 +171,7 @@ impl Vm {
     //@  subst ".try_as_obj_string() .expect(\"Expected ObjString.\")" => ".try_as_obj_string().unwrap()"
     //@  requires old(self).slot(1) is ObjString
     //@  ensures r matches Err(e) ==> e.kind is IndexError || e.kind is TypeError || e.kind is ValueError
-    //@  at body.start broadcast use axiom_cb; broadcast use axiom_value_int_number;
+    //@  at body.start broadcast use axiom_cb; broadcast use axiom_value_int_number; broadcast use axiom_bytes_len; broadcast use axiom_utf8_char;
     //@  loop 0 invariant begin < end <= string.obj().blen(), string.obj().blen() <= isize::MAX, string.obj().is_cb(begin as int), begin < string.obj().blen()
     //@  loop 0 decreases string.obj().blen() - end
     //@  at loop0.start proof { axiom_cb_ends(string.obj()); }
@@ -230,7 +245,7 @@ impl ObjStringIter {
     //@  ensures r is None ==> final(self).pos == old(self).pos
     //@  ensures r matches Some((a, b)) ==> a == old(self).pos && b == final(self).pos && a < b <= old(self).iterable.obj().blen()
     //@  ensures r matches Some((a, b)) ==> forall|j: int| a < j < b ==> !old(self).iterable.obj().is_cb(j)
-    //@  at body.start broadcast use axiom_cb;
+    //@  at body.start broadcast use axiom_cb; broadcast use axiom_bytes_len; broadcast use axiom_utf8_char;
     //@  loop 0 invariant self.iterable == old(self).iterable, old_pos < self.pos <= self.iterable.obj().blen(), old_pos == old(self).pos
     //@  loop 0 invariant forall|j: int| old_pos < j < self.pos ==> !self.iterable.obj().is_cb(j)
     //@  loop 0 decreases self.iterable.obj().blen() - self.pos
